@@ -17,7 +17,7 @@ from collections import Counter
 
 from .. import lin, paths, storewalk, tables
 from ..model import AnalysisError, Project, self_attr, walk_no_nested
-from ..report import Result
+from ..report import Result, ctx_of
 from ..tables import RP, RG, RE, RI, TRIGGERS
 from .common import events_atoms, site, src, sum_lin, status_str
 
@@ -38,6 +38,7 @@ def run(p: Project, tier: str) -> Result:
     r.not_decided = ['belt-specific timing; everything above the store level is C03']
     ws = storewalk.walks(p, assume_inv=('I1',))
     for w in ws:
+        r.ctx = ctx_of(w)
         r.paths += w.npaths
         check_multiset(p, w, r, 'C02.R1')
         binding_checks(p, w, r, 'C02.R3', which=('binder', 'arrival', 'get', 'cancel'))
@@ -59,6 +60,7 @@ def check_mutator_vocabulary(p, ws, r):
     r.rule('C02.R6', 'holding and binding lists are changed only by append / insert / pop / remove (no re-ordering, clearing, slicing, re-binding)', 6)
     seen = set()
     for w in ws:
+        r.ctx = ctx_of(w)
         s = w.store
         roles = set(s.holders) | {s.avail, RE, RG, RP} | ({RI} if s.has_ri else set())
         n_ops = 0
@@ -564,6 +566,7 @@ def check_index_agreement(ws, r):
     r.rule('C02.R5', 'an index obtained from `M.index(x)` is only applied to M (or to the list kept in lock-step with it)', 8)
     sites = {}
     for w in ws:
+        r.ctx = ctx_of(w)
         TWINS = {frozenset((RE, RI))}
         if not w.store.has_ri:
             TWINS.add(frozenset((RE, w.store.avail)))       # positional binding: reserved_events[k] owns <available list>[k]
